@@ -303,7 +303,7 @@ func (w *World) effectsIn(fn *ssa.Function, region func(*ssa.BasicBlock) bool, o
 }
 
 func isLogLike(s sym) bool {
-	return strings.HasSuffix(s.pkg, "/log") || strings.Contains(s.pkg, "zap") || strings.Contains(s.pkg, "prometheus") || strings.HasSuffix(s.pkg, "/metrics") || s.pkg == "fmt" || s.pkg == "time" || s.pkg == "strings" || s.pkg == "strconv" || strings.HasSuffix(s.pkg, "samber/lo") || strings.HasSuffix(s.pkg, "cockroachdb/errors") || s.pkg == "errors" || s.pkg == "sort" || s.pkg == "context"
+	return strings.HasSuffix(s.pkg, "/log") || strings.Contains(s.pkg, "zap") || strings.Contains(s.pkg, "prometheus") || strings.HasSuffix(s.pkg, "/metrics") || s.pkg == "fmt" || s.pkg == "time" || s.pkg == "strings" || s.pkg == "strconv" || strings.HasSuffix(s.pkg, "samber/lo") || strings.HasSuffix(s.pkg, "cockroachdb/errors") || s.pkg == "errors" || s.pkg == "sort" || s.pkg == "context" || s.pkg == "regexp" || s.pkg == "math" || s.pkg == "bytes" || s.pkg == "unicode" || s.pkg == "unicode/utf8" || s.pkg == "path" || s.pkg == "slices" || s.pkg == "maps"
 }
 
 // computeSig builds the signature of one declared function (with its literals).
